@@ -267,7 +267,12 @@ func sweepType(f *failer, ty reflect.Type) {
 	if pv := rt.Guard(func() { zero = reflect.Zero(ty).Interface() }); pv != nil {
 		return
 	}
-	if pv := rt.Guard(func() { _, _ = gojson.Marshal(zero) }); pv != nil {
+	if ty.Kind() == reflect.Array && ty.Len() > 2048 {
+		// a huge array of the runtime: compile only (encode a nil pointer to it), the elements add nothing
+		if pv := rt.Guard(func() { _, _ = gojson.Marshal(reflect.Zero(reflect.PointerTo(ty)).Interface()) }); pv != nil {
+			f.fail("sweep-encode-panic", c, "Marshal(nil *%s) panics: %v", ty, pv)
+		}
+	} else if pv := rt.Guard(func() { _, _ = gojson.Marshal(zero) }); pv != nil {
 		f.fail("sweep-encode-panic", c, "Marshal(zero %s) panics: %v", ty, pv)
 	}
 	var dst interface{}
